@@ -104,8 +104,8 @@ func runC17(c *core.Ctx) {
 		o.Require(n == 3, "expected the three root writers to be used, found %d", n)
 		// the single-leaf case is handled before collapse
 		src := c.Prog.Src(fn.Decl.Body)
-		o.Require(strings.Contains(src, "iflen(w.tail)==1&&w.tail[0].depth==0{returnw.writeRootFromSingleLeaf(w.tail[0])}"), "a single completed leaf is not re-wrapped as a root")
-		o.Require(strings.Contains(src, "ifroot.depth>0{returnw.writeRootWithKids(root.ref)}"), "a merged node is not wrapped in a Limits-free root")
+		o.Shape(strings.Contains(src, "iflen(w.tail)==1&&w.tail[0].depth==0{returnw.writeRootFromSingleLeaf(w.tail[0])}"), "a single completed leaf is not re-wrapped as a root")
+		o.Shape(strings.Contains(src, "ifroot.depth>0{returnw.writeRootWithKids(root.ref)}"), "a merged node is not wrapped in a Limits-free root")
 	})
 	c.Check("C17-R2", pk+".limits-provenance", "/Limits is [least key, greatest key] of exactly the children listed", func(o *core.Ob) {
 		leaf := c.Prog.Func(pk, "(*treeWriter).completePendingLeaf")
@@ -151,8 +151,8 @@ func runC17(c *core.Ctx) {
 		}
 		o.Require(g.EdgeDominates(buf, core.EdgeRef{From: guard, Label: core.EdgeFalse}), "the entry is buffered without passing the order check")
 		src := c.Prog.Src(fn.Decl.Body)
-		o.Require(strings.Contains(src, "w.lastKey=keyw.hasEntries=true"), "the previous key is not recorded")
-		o.Require(strings.Contains(src, "iflen(w.pendingLeaf)>=maxChildren{"), "leaves are not completed at the fan-out bound")
+		o.Shape(strings.Contains(src, "w.lastKey=keyw.hasEntries=true"), "the previous key is not recorded")
+		o.Shape(strings.Contains(src, "iflen(w.pendingLeaf)>=maxChildren{"), "leaves are not completed at the fan-out bound")
 		o.Require(c.Prog.ConstInt(pk, "maxChildren") <= 64, "fan-out bound is %d", c.Prog.ConstInt(pk, "maxChildren"))
 	})
 	c.Check("C17-R3", pk+".WriteMap/sorted", "WriteMap sorts the keys before it feeds them to the writer (map order never reaches the output)", func(o *core.Ob) {
@@ -232,8 +232,8 @@ func runC17(c *core.Ctx) {
 			}
 			o.At(fn.Site(fn.Decl, name))
 			src := c.Prog.Src(fn.Decl.Body)
-			o.Require(strings.Contains(src, "ifseen[ref]{") && strings.Contains(src, "seen[ref]=true"), "%s has no visited-set on kid references", name)
-			o.Require(strings.Contains(src, "maxDepth()"), "%s has no depth bound", name)
+			o.Shape(strings.Contains(src, "ifseen[ref]{") && strings.Contains(src, "seen[ref]=true"), "%s has no visited-set on kid references", name)
+			o.Shape(strings.Contains(src, "maxDepth()"), "%s has no depth bound", name)
 		}
 	})
 	c.Check("C17-R5", pk+".finish/empty", "an empty map yields no tree: finish returns the zero reference without writing anything", func(o *core.Ob) {
